@@ -79,8 +79,53 @@ func newLitInterp(p *core.Program, info *types.Info, pkgRel string) *absint.Inte
 	in := &absint.Interp{Info: info, Prog: p}
 	if pkg := p.Pkg(pkgRel); pkg != nil {
 		in.Hooks.Inline = helperInline(p, pkg.PkgPath, nil)
+		// variables the literal captures are looked up in the function that declares them
+		enclosing := func(v *types.Var) *core.FuncRef {
+			for _, fr := range p.AllFuncs(pkgRel) {
+				if fr.Pkg == pkg && fr.Decl != nil && fr.Decl.Body != nil && v.Pos() >= fr.Decl.Body.Pos() && v.Pos() <= fr.Decl.Body.End() {
+					return fr
+				}
+			}
+			return nil
+		}
+		in.Hooks.FreeClosure = func(v *types.Var) *ast.FuncLit {
+			if fr := enclosing(v); fr != nil {
+				return onceBoundLiteral(fr, v)
+			}
+			return nil
+		}
+		in.Hooks.FreeVar = func(v *types.Var) ast.Expr {
+			if fr := enclosing(v); fr != nil {
+				return pureDefinition(fr, v)
+			}
+			return nil
+		}
 	}
 	return in
+}
+
+// onceBoundLiteral: the literal a local of fn is bound to, when it is bound exactly once (`f := func(…) {…}`).
+func onceBoundLiteral(fn *core.FuncRef, v *types.Var) *ast.FuncLit {
+	info := fn.Info()
+	var lit *ast.FuncLit
+	n := 0
+	ast.Inspect(fn.Decl.Body, func(m ast.Node) bool {
+		as, ok := m.(*ast.AssignStmt)
+		if !ok || len(as.Lhs) != len(as.Rhs) {
+			return true
+		}
+		for i, l := range as.Lhs {
+			if id, ok := l.(*ast.Ident); ok && (info.Defs[id] == v || info.Uses[id] == v) {
+				n++
+				lit, _ = core.Unparen(as.Rhs[i]).(*ast.FuncLit)
+			}
+		}
+		return true
+	})
+	if n == 1 {
+		return lit
+	}
+	return nil
 }
 
 var helperDecls map[*core.Program]map[*types.Func]*core.FuncRef
